@@ -430,8 +430,8 @@ gost28147_blocks_decrypt(gost28147_context_p ctx, const uint8_t *src, size_t blo
 		for (; 0 != blocks_count; blocks_count --) {
 			/* Load, transform and save block. */
 			gost28147_block_decrypt(ctx,
-			    ntohl(U8TO32_LITTLE(src + sizeof(uint32_t))),
-			    ntohl(U8TO32_LITTLE(src)),
+			    U8TO32_LITTLE(src), /* n1 */
+			    U8TO32_LITTLE(src + sizeof(uint32_t)), /* n2 */
 			    &n1,
 			    &n2);
 			/* Store result to dst. */
@@ -467,8 +467,8 @@ gost28147_blocks_decrypt_be(gost28147_context_p ctx, const uint8_t *src, size_t 
 		for (; 0 != blocks_count; blocks_count --) {
 			/* Load, transform and save block. */
 			gost28147_block_decrypt(ctx,
-			    U8TO32_LITTLE(src), /* n1 */
-			    U8TO32_LITTLE(src + sizeof(uint32_t)), /* n2 */
+			    ntohl(U8TO32_LITTLE(src + sizeof(uint32_t))), /* n1 */
+			    ntohl(U8TO32_LITTLE(src)), /* n2 */
 			    &n1,
 			    &n2);
 			/* Store result to dst. */
